@@ -33,7 +33,9 @@ type wBlock struct {
 }
 
 var c20Words = []string{"alpha", "beta gamma", "Zürich", "中文", "x1", "end.", "a-b", "Q"}
-var c20Hard = []string{"2 * 3", "snake_case_name", "# not a heading", "a | b", "back`tick", "[link](x)", " lead", "trail ", "<tag>", "1. one", "- dash", "> quote", "star*", "\\slash", "tab end\t", "\ttab start", "nbsp end\u00a0"}
+var c20Hard = []string{"2 * 3", "snake_case_name", "# not a heading", "a | b", "back`tick", "[link](x)", " lead", "trail ", "<tag>", "1. one", "- dash", "> quote", "star*", "\\slash", "tab end\t", "\ttab start", "nbsp end\u00a0",
+	// words that are block markers when a wrapped line happens to begin with them
+	"-", "+", "1.", "7)", "=", "---", "===", ">", "#", "*", "~~~", "```"}
 
 // c20Atoms: texts are also composed of these, so that every metacharacter turns up at the start, in the middle and at
 // the end of a run, alone and doubled (a fixed vocabulary only has them where its author thought of putting them)
@@ -52,11 +54,23 @@ func composedText(r *rng) string {
 	}
 }
 
+// c20WrapStress: the current case is of the wrap-stress kind - long paragraphs of short words, many of them words that
+// are block markers at the start of a line, exported with wrapping at a small width
+var c20WrapStress bool
+var c20Markers = []string{"-", "+", "1.", "7)", "=", "---", "===", ">", "#", "*", "12.", "- x", "+ y"}
+
 func genWRuns(r *rng, hard bool, feats map[string]int, plainOnly bool) []wRun {
 	var out []wRun
-	for i, n := 0, r.rangeI(1, 4); i < n; i++ {
+	nmax := 4
+	if c20WrapStress {
+		nmax = 14
+	}
+	for i, n := 0, r.rangeI(1, nmax); i < n; i++ {
 		t := c20Words[r.intn(len(c20Words))]
-		if hard && r.chance(35) {
+		if c20WrapStress && r.chance(30) {
+			t = c20Markers[r.intn(len(c20Markers))]
+			feats["word that is a block marker at a line start"]++
+		} else if hard && r.chance(35) {
 			t = c20Hard[r.intn(len(c20Hard))]
 			feats["text with Markdown metacharacters"]++
 		} else if hard && r.chance(25) {
@@ -303,6 +317,10 @@ func c20Options(r *rng) *markdown.ExportOptions {
 	o.EmphasisMarker = []string{"*", "_"}[r.intn(2)]
 	o.WrapLongLines = r.chance(25)
 	o.MaxLineLength = r.rangeI(10, 60)
+	if c20WrapStress {
+		o.WrapLongLines = true
+		o.MaxLineLength = r.rangeI(8, 30)
+	}
 	return o
 }
 
@@ -324,6 +342,10 @@ func runC20(cfg *runCfg) error {
 	for ci := 0; ci < cfg.n; ci++ {
 		cr := r.fork()
 		hard := ci%3 == 2
+		c20WrapStress = ci%8 == 5
+		if c20WrapStress {
+			feats["wrap-stress document"]++
+		}
 		blocks := genWDoc(cr, hard, feats)
 		d := buildWDoc(blocks)
 		opts := c20Options(cr)
